@@ -104,6 +104,7 @@ Lemma core_set_hb_bound v s : same_core s (set_hb_bound v s). Proof. core. Qed.
 Lemma core_set_driver_active v s : same_core s (set_driver_active v s). Proof. core. Qed.
 Lemma core_set_close_sent v s : same_core s (set_close_sent v s). Proof. core. Qed.
 Lemma core_set_ring_full v s : same_core s (set_ring_full v s). Proof. core. Qed.
+Lemma core_set_uclosed v s : same_core s (set_uclosed v s). Proof. core. Qed.
 
 Ltac inv_split := unfold inv; split; [|split; [|split; [|split]]].
 
@@ -535,7 +536,9 @@ Proof. intros I. destruct o; cbn [step].
   - cbn [fst]. eapply inv_same_core; [apply core_set_driver_hb|exact I].
   - cbn [fst]. eapply inv_same_core; [apply core_set_hb_env|exact I].
   - cbn [fst]. eapply inv_same_core; [apply core_set_ring_full|exact I].
-  - apply do_work_inv; auto. Qed.
+  - apply do_work_inv; auto.
+  - unfold do_close_handle. destruct k; try exact I; destruct (user_obj _ r s); try exact I; cbn [fst];
+      (eapply inv_same_core; [apply core_set_uclosed|exact I]). Qed.
 
 Lemma init_inv c0 now0 : inv (init c0 now0).
 Proof. inv_split.
